@@ -14,6 +14,7 @@ enabled, so every list is a schedule and every interleaving of the goroutines is
 number of points, on the edge buffer size, or on the length of the chain.
 -/
 import Kap.Proofs.C07Outcome
+import Kap.Proofs.C07Buf
 import Kap.Gen.C07Shape
 import Kap.Gen.C07Go
 import Kap.Spec.C07Go
@@ -182,6 +183,53 @@ theorem close_stops_and_delivers (cfg : Cfg) (kinds : List Kind) (n : Nat) (sche
   intro s hq
   have h := stop_terminates cfg kinds n sched hhook hleak hea hcap hne hfo (fun k hm => losslessKind_not_loop (hk k hm)) hq
   exact (stop_delivers_all_partial cfg kinds n sched hclose hg hk h.1).1
+
+/-! ### A BUFFERING node flushes what it holds before it closes its child edge (outer join, Model/C07Buf.lean) -/
+
+/-- **flush on finish**: a join node with an outer fill, a leading parent that delivers the points of `n` timestamps
+and a lagging parent that delivers only the first `m` of them, ANY interleaving of the arrivals: once Finish has run
+(all parent edges closed by the graceful stop) and the node returns, every buffered set has been emitted - the child
+edge was handed one point per timestamp any parent delivered, in particular every accepted point of the leading
+parent (`m ≤ n`). (Seeded change C07-4 - emitAll calling emit(false) once - is `join_flush_once_loses_sets`.) -/
+theorem flush_on_finish (n m : Nat) (sched : List Buf.Act) :
+    let s := Buf.run false (Buf.init n m) sched
+    s.done = true → s.e = max n m ∧ (m ≤ n → s.e = n) := by
+  intro s hd
+  have hi : Buf.Inv s := Buf.inv_run (Buf.inv_init n m) sched
+  have hf : Buf.Flushed s := Buf.flushed_run (Buf.inv_init n m) (by intro h; simp [Buf.init] at h) sched
+  have hnm := Buf.run_nm (fo := false) (s := Buf.init n m) sched
+  have hfin := hi.fin hd
+  have he := hf hd
+  have h1 : s.n = n := hnm.1
+  have h2 : s.m = m := hnm.2
+  refine ⟨by rw [he, hfin.1, hfin.2, h1, h2], fun hmn => ?_⟩
+  rw [he, hfin.1, hfin.2, h1, h2]; omega
+
+/-- Non-vacuity: 10 timestamps, the lagging parent 3 behind: the canonical schedule finishes with all 10 emitted. -/
+example : (Buf.run false (Buf.init 10 7) (Buf.canon 10)).done = true ∧ (Buf.run false (Buf.init 10 7) (Buf.canon 10)).e = 10 := by
+  decide
+
+/-- … nothing is emitted before it arrived or twice, and a node that has not finished can always move (the next
+point arrives or Finish runs): every maximal schedule ends with `done`, hence with everything emitted. Also true of
+the seeded variant (it terminates; it loses). -/
+theorem join_accounting_and_progress (fo : Bool) (n m : Nat) (sched : List Buf.Act) :
+    let s := Buf.run fo (Buf.init n m) sched
+    s.e ≤ max s.a s.b ∧ s.a ≤ n ∧ s.b ≤ m ∧ (s.done = false → ∃ x, (Buf.step fo s x).isSome = true) := by
+  intro s
+  have hi : Buf.Inv s := Buf.inv_run (Buf.inv_init n m) sched
+  have hnm := Buf.run_nm (fo := fo) (s := Buf.init n m) sched
+  have h1 : s.n = n := hnm.1
+  have h2 : s.m = m := hnm.2
+  exact ⟨hi.e, by rw [← h1]; exact hi.a, by rw [← h2]; exact hi.b, fun hd => Buf.can_move fo s hi hd⟩
+
+/-- seeded change C07-4 (`flushOnce = true`: emitAll = one emit(false)): a@0..9, b@0..6, graceful stop: the sets of
+t = 7, 8, 9 are buffered; emit(false) sends t = 7 and goes on only while the next set is complete or every parent head
+has passed it - the lagging head never moves again - so t = 8 and t = 9 are dropped when the node exits: 8 of 10
+accepted points reach the output. A lag of one timestamp is invisible. Replayed on the real code by
+corpus/C07/outer-join-flush-on-stop.ops. -/
+theorem join_flush_once_loses_sets :
+    (Buf.run true (Buf.init 10 7) (Buf.canon 10)).done = true ∧ (Buf.run true (Buf.init 10 7) (Buf.canon 10)).e = 8 ∧
+    (Buf.run true (Buf.init 10 9) (Buf.canon 10)).e = 10 := by decide
 
 /-! ### Stopping never kills the daemon -/
 
